@@ -25,6 +25,13 @@ class SrcError(Exception):
   pass
 
 
+class EmptyError(SrcError):
+  """rendering: an exception object that is falsy (it has a length, and the length is 0) - still an exception of the source"""
+
+  def __len__(self):
+    return 0
+
+
 from cfgs import pf_cfg  # noqa: E402
 
 
@@ -49,7 +56,7 @@ class Run:
       def __next__(self):
         s.yield_point()            # scheduling point: the source's next() is arbitrary user code
         if self.i == F:
-          raise SrcError(f'source failed at {F}')
+          raise (EmptyError if (F + L) % 2 == 0 else SrcError)(f'source failed at {F}')
         if self.i == L:
           raise StopIteration
         self.i += 1
@@ -263,7 +270,7 @@ def prefetch_part(chk):
       for i in range(L + 1):
         time.sleep(delays[i])
         if i == F:
-          raise SrcError()
+          raise (EmptyError if trial % 2 == 0 else SrcError)()
         if i == L:
           return
         yield i + 1
